@@ -791,6 +791,7 @@ def reconnect_stale_pg(k1: int, k2: int, shape: int, raises: bool, mid: int) -> 
     pre: (k2 == 0) or (0 < k1 < k2 <= NMAX)
     pre: 0 <= shape <= 4
     pre: 0 <= mid < MIDS
+    pre: FULL or k2 == 0 or mid <= 2
     post: _
     """
     STRICT_STALE[0] = True
